@@ -591,3 +591,70 @@ Lemma early_release_refuted : exists s, inv s /\ In 1 (holders s) /\
 Proof.
   exists (fst (open_atomic st0 1)). split; [apply (inv_held [] 1); reflexivity|]. vm_compute. repeat split; auto.
 Qed.
+
+(* ---------- processes of several users ----------
+   process.IsRunning asks the kernel with kill(pid, 0). Three answers: no error — the process exists; ESRCH — there is
+   no such process; EPERM — the process EXISTS but the caller may not signal it: it belongs to another user and the
+   caller is not root. [own p] is the user of process p, 0 is root. The code reads "alive" as "exists" (EPERM = alive);
+   the other reading, "alive = I can signal it" (`Signal(0) == nil`), takes the holder of another user for dead.
+   [dead] is about existence only, so the steps above ARE the [Exists] reading, whoever owns the processes
+   (open_u_exists): every theorem of this file holds for holders and openers of different users. *)
+Inductive probe := POk | PNoSuch | PNotPermitted.
+Definition kill0 (own : nat -> nat) (s : st) (p q : nat) : probe :=
+  if mem q (dead s) then PNoSuch
+  else if Nat.eqb (own p) 0 || Nat.eqb (own p) (own q) then POk else PNotPermitted.
+Inductive reading := Exists | Signalable.
+Definition is_running (r : reading) (a : probe) : bool :=
+  match a with
+  | POk => true
+  | PNoSuch => false
+  | PNotPermitted => match r with Exists => true | Signalable => false end
+  end.
+Definition test_u (r : reading) (own : nat -> nat) (s : st) (p : nat) : st * out :=
+  match lockf s with
+  | None => test_free s p
+  | Some (LPid q) => if is_running r (kill0 own s p q) then (s, Refused q) else test_free s p
+  | Some LTorn => test_free s p
+  end.
+Definition open_u (r : reading) (own : nat -> nat) (s : st) (p : nat) : st * out :=
+  match test_u r own s p with
+  | (s1, Granted) => (fst (step (fst (step s1 (Create p))) (Write p)), Granted)
+  | (s1, o) => (s1, o)
+  end.
+
+Lemma exists_is_alive own s p q : is_running Exists (kill0 own s p q) = negb (mem q (dead s)).
+Proof. unfold kill0. destruct (mem q (dead s)); [reflexivity|]. destruct (Nat.eqb (own p) 0 || Nat.eqb (own p) (own q)); reflexivity. Qed.
+Lemma test_u_exists own s p : test_u Exists own s p = step s (Test p).
+Proof.
+  unfold test_u. cbn [step]. destruct (lockf s) as [[q|]|]; try reflexivity.
+  rewrite exists_is_alive. destruct (mem q (dead s)); reflexivity.
+Qed.
+Lemma open_u_exists own s p : open_u Exists own s p = open_atomic s p.
+Proof. unfold open_u, open_atomic. rewrite test_u_exists. reflexivity. Qed.
+
+(* the holder is alive: whoever it belongs to and whoever asks, the open is refused, names it and changes nothing *)
+Lemma other_user_refused own s p q : lockf s = Some (LPid q) -> mem q (dead s) = false -> open_u Exists own s p = (s, Refused q).
+Proof. intros L D. rewrite open_u_exists. now apply refuse_open. Qed.
+(* the holder is gone and left its lock: whoever it belonged to, the next open succeeds *)
+Lemma other_user_stale own s p q : inv s -> lockf s = Some (LPid q) -> mem q (dead s) = true ->
+  snd (open_u Exists own s p) = Granted /\ lockf (fst (open_u Exists own s p)) = Some (LPid p) /\ In p (holders (fst (open_u Exists own s p))).
+Proof. intros I L D. rewrite open_u_exists. now apply (stale_open s p q). Qed.
+
+(* "alive = signalable": root's process 1 holds and is alive; process 2 of user 1 is let in next to it *)
+Lemma signalable_refuted : exists own s, inv s /\ In 1 (holders s) /\ lockf s = Some (LPid 1) /\ mem 1 (dead s) = false /\
+  own 2 <> 0 /\ own 2 <> own 1 /\
+  kill0 own s 2 1 = PNotPermitted /\
+  snd (open_u Signalable own s 2) = Granted /\ lockf (fst (open_u Signalable own s 2)) = Some (LPid 2) /\
+  holders (fst (open_u Signalable own s 2)) = [2; 1] /\ dead (fst (open_u Signalable own s 2)) = [].
+Proof.
+  exists (fun p => if Nat.eqb p 1 then 0 else 1), (fst (open_atomic st0 1)).
+  split; [apply (inv_held [] 1); reflexivity|]. vm_compute. repeat split; auto; discriminate.
+Qed.
+(* ... which no schedule of processes that may signal each other (one user, or root asking) can show: there the two
+   readings coincide *)
+Lemma signalable_blind own s p : (forall q, own p = 0 \/ own p = own q) -> open_u Signalable own s p = open_atomic s p.
+Proof.
+  intros S. rewrite <- (open_u_exists own s p). unfold open_u, test_u. destruct (lockf s) as [[q|]|]; try reflexivity.
+  unfold kill0. destruct (mem q (dead s)); [reflexivity|].
+  destruct (S q) as [E|E]; rewrite E; [|rewrite Nat.eqb_refl, orb_true_r]; reflexivity.
+Qed.
